@@ -341,7 +341,7 @@ def combos_two():
 def enumerate_two(tier):
     if tier == "quick":
         layouts = ["memory", "flushed", "reopened"]
-        variants = [(0, "flush", 1)]
+        variants = [(0, "flush", 1), (0, "rewrite_flush", 1)]
     else:
         layouts = ["memory", "flushed", "late", "mixed", "reopened", "prior"]
         variants = [(0, "flush", 1), (0, "none", 1), (1, "flush", 1), (0, "rewrite_flush", 1)]
@@ -393,7 +393,7 @@ class Ref:
     def _bury(self, k, series, rows):
         g = self.ghost.setdefault(k, {}).setdefault(series, {})
         for ts, f in rows.items():
-            g[ts] = dict(f, _mem=((k, series, ts) in self.unflushed), _n=self.drop_tag, _by=self.dropped_kind)
+            g[ts] = dict(f, _mem=((k, series, ts) in self.unflushed), _n=self.drop_tag, _by=self.dropped_kind, _rp=k[1])
 
     def drop_series(self, db, mst, fn):
         n = 0
@@ -407,6 +407,13 @@ class Ref:
         return n
 
     def _drop_keys(self, pred):
+        if self.dropped_kind in ("rp", "database"):
+            # rows buried earlier inside this container: their write-ahead log goes away with the container's directory
+            for k in self.ghost:
+                if pred(k):
+                    for r in self.ghost[k].values():
+                        for f in r.values():
+                            f["_mem"] = False
         for k in list(self.data):
             if pred(k):
                 for s, rows in self.data.pop(k).items():
